@@ -36,13 +36,14 @@ CALLEES = {"mode_ac::decode_id13_field": (0, 32, False), "decode_id13_field": (0
            "mode_ac::mode_a_to_mode_c": (1, 32, True), "mode_a_to_mode_c": (1, 32, True)}      # name -> (index, result width, fallible)
 BINOPS = [("||", "lor"), ("&&", "land"), None, ("|", "bor"), ("^", "bxor"), ("&", "band"), None, None, None]
 LEVELS = [[("||", "lor")], [("&&", "land")], [("==", "eq"), ("!=", "ne"), ("<", "lt"), ("<=", "le"), (">", "gt"), (">=", "ge")],
-          [("|", "bor")], [("^", "bxor")], [("&", "band")], [("<<", "shl"), (">>", "shr")], [("+", "add"), ("-", "sub")], [("*", "mul")]]
+          [("|", "bor")], [("^", "bxor")], [("&", "band")], [("<<", "shl"), (">>", "shr")], [("+", "add"), ("-", "sub")], [("*", "mul"), ("/", "div")]]
 
 class P:
     def __init__(self, toks, argname=None, argwidth=32):
         self.t = toks; self.i = 0
         self.scopes = [{}]; self.types = {}; self.nvars = 0
         self.input_bits = None
+        self.slices = set()
         if argname is not None: self.bind(argname, argwidth)
     # ---- variables
     def bind(self, name, width):
@@ -107,6 +108,19 @@ class P:
                 if fallible: raise Unsupported("fallible call in expression position: " + name)
                 self.i += 2; a, _ = self.expr(); self.eat("op", ")")
                 return ("call", idx, a), w
+            if name in ("u32::from", "u64::from", "usize::from", "u16::from") and self.isop("(", 1):   # lossless widening: the same value
+                self.i += 2; a, _ = self.expr(); self.eat("op", ")")
+                return a, WIDTH[name.split("::")[0]]
+            if name == "CRC_TABLE" and self.isop("[", 1):                      # the constant table: panics when the index is out of bounds
+                self.i += 2; a, _ = self.expr(); self.eat("op", "]")
+                return ("table", a), 32
+            if name in self.slices:
+                if self.isop("[", 1):                                          # slice indexing: panics when out of bounds
+                    self.i += 2; a, _ = self.expr(); self.eat("op", "]")
+                    return ("index", name, a), 8
+                if self.isop(".", 1) and self.peek(2) == ("id", "len") and self.isop("(", 3) and self.isop(")", 4):
+                    self.i += 5; return ("len", name), 64
+                raise Unsupported("use of slice " + name)
             if self.isop("(", 1) or "::" in name: raise Unsupported("call / path not in the fragment: " + name)
             self.i += 1
             idx = self.lookup(name)
@@ -184,6 +198,17 @@ class P:
         if self.isid("return"):
             self.i += 1; r = self.ret(); self.eat("op", ";"); return ("ret", r)
         if self.isid("if"): return self.ifstmt()
+        if self.isid("for"):
+            # `for i in 0..E { assignments }`
+            self.i += 1; name = self.eat("id")[1]; self.eat("id", "in"); z = self.eat("num")
+            if z[1] != 0: raise Unsupported("range does not start at 0")
+            self.eat("op", "."); self.eat("op", ".")
+            hi, _ = self.expr()
+            self.eat("op", "{")
+            self.scopes.append({}); idx = self.bind(name, 64); body = clean(self.block()); self.scopes.pop()
+            self.eat("op", "}")
+            if any(st[0] != "assign" for st in body): raise Unsupported("control flow inside a loop")
+            return ("for", idx, hi, body)
         tok = self.peek()
         if tok[0] == "id" and self.peek(1)[0] == "op" and self.peek(1)[1] in ("=", "|=", "^=", "&=", "+=", "-=", "*=", "<<=", ">>="):
             name = tok[1]; op = self.peek(1)[1]; self.i += 2
@@ -243,6 +268,11 @@ class Emit:
             c, fc = self.expr(e[1]); a, fa = self.expr(e[2]); b, fb = self.expr(e[3])
             if not self.isbool(e[1]): raise Unsupported("condition is not Boolean")
             return "(if %s then %s else %s)" % (c, a, b), fc + ["(%s && %s)" % (c, f) for f in fa] + ["(!%s && %s)" % (c, f) for f in fb]
+        if k == "table":
+            a, fa = self.expr(e[1]); return "(Gen.crcTable.getD %s 0)" % a, fa + ["(Nat.ble 256 %s)" % a]
+        if k == "index":
+            a, fa = self.expr(e[2]); return "(%s.getD %s 0)" % (e[1], a), fa + ["(Nat.ble %s.length %s)" % (e[1], a)]
+        if k == "len": return "%s.length" % e[1], []
         if k == "call":
             a, fa = self.expr(e[2])
             return "(numOf (%s %s))" % (FN_NAMES[e[1]], a), fa + ["(notNum (%s %s))" % (FN_NAMES[e[1]], a)]
@@ -259,6 +289,7 @@ class Emit:
         if op == "add": return "(%s + %s)" % (a, b), f + ["(Nat.ble %d (%s + %s))" % (1 << w, a, b)]
         if op == "mul": return "(%s * %s)" % (a, b), f + ["(Nat.ble %d (%s * %s))" % (1 << w, a, b)]
         if op == "sub": return "(%s - %s)" % (a, b), f + ["(Nat.blt %s %s)" % (a, b)]
+        if op == "div": return "(%s / %s)" % (a, b), f + ["(%s == 0)" % b]
         if op == "eq": return "(%s == %s)" % (a, b), f
         if op == "ne": return "(%s != %s)" % (a, b), f
         if op == "lt": return "(Nat.blt %s %s)" % (a, b), f
@@ -319,6 +350,25 @@ class Emit:
                     out += self.badlet(["(%s && %s)" % (taken, g) for g in fx], ind)
                     out += "%slet %s := if %s then %s else %s\n" % (ind, self.v(a[1]), taken, x, self.v(a[1]))
             return out + self.block(rest, ind)
+        if s[0] == "for":
+            # a fold over 0 .. hi-1; the state is the variables the body assigns, plus `bad`
+            hi, fh = self.expr(s[2])
+            out = self.badlet(fh, ind)
+            assigned = []
+            for a in s[3]:
+                if a[1] not in assigned: assigned.append(a[1])
+            names = [self.v(i) for i in assigned]
+            out += "%slet st := (List.range %s).foldl (fun (st : %s) %s =>\n" % (ind, hi, " × ".join(["Nat"] * len(names) + ["Bool"]), self.v(s[1]))
+            proj = lambda k, n: ("st" + ".2" * k + (".1" if k < n else ""))
+            for k, nm in enumerate(names): out += "%s    let %s := %s\n" % (ind, nm, proj(k, len(names)))
+            out += "%s    let bad := %s\n" % (ind, proj(len(names), len(names)))
+            for a in s[3]:
+                x, fx = self.expr(a[2])
+                out += self.badlet(fx, ind + "    ") + "%s    let %s := %s\n" % (ind, self.v(a[1]), x)
+            out += "%s    (%s)) (%s)\n" % (ind, ", ".join(names + ["bad"]), ", ".join(names + ["bad"]))
+            for k, nm in enumerate(names): out += "%slet %s := %s\n" % (ind, nm, proj(k, len(names)))
+            out += "%slet bad := %s\n" % (ind, proj(len(names), len(names)))
+            return out + self.block(rest, ind)
         if s[0] == "ifletok":
             if rest or not (self.returns(s[4]) and self.returns(s[5])): raise Unsupported("if let that falls through")
             a, f = self.expr(s[3])
@@ -329,6 +379,12 @@ class Emit:
             out += "%s| .err x => .err x\n%s| .panic p => .panic p\n" % (ind, ind)
             return out
         raise Unsupported("statement " + s[0])
+
+def emit_fn2(lean_name, rust_name, stmts, slice_name, int_index):
+    em = Emit()
+    body = em.block(stmts, "  ")
+    return ("/-- `%s` (the slice as a list of byte values) -/\ndef %s (%s : List Nat) (v%d : Nat) : Res Val :=\n  let bad := false\n%s"
+            % (rust_name, lean_name, slice_name, int_index, body))
 
 def emit_fn(lean_name, rust_name, stmts, doc):
     em = Emit()
@@ -387,12 +443,19 @@ def generate(read):
         items.append((lean_name, "map closure of `%s`" % field, stmts, None))
     closure(adsb, "airspeed", "airspeedMapSrc"); closure(adsb, "altitude", "selAltMapSrc"); closure(adsb, "gnss_baro_diff", "gnssDiffMapSrc")
     closure(adsb, "squawk", "statusSquawkMapSrc"); closure(lib, "id", "df21IdMapSrc")
-    out = ["import Adsb.MiniRust", "/-! GENERATED by /verif/tools/rust2lean.py (called from extract.py) from /repo on every run. Do not edit.",
+    # `modes_checksum(message: &[u8], bits: usize)`: a loop over the table
+    crc = strip_comments(read("libadsb_deku/src/crc.rs"))
+    head, body = fn_text(crc, r"pub fn modes_checksum\(message: &\[u8\], bits: usize\) -> result::Result<u32, DekuError> \{")
+    pc = P(tokenize(body)); pc.slices.add("message"); pc.bind("bits", 64)
+    crc_stmts = clean(pc.block())
+    if pc.peek()[0] != "eof": raise Unsupported("trailing tokens after modes_checksum")
+    out = ["import Adsb.MiniRust", "import Adsb.Gen.Tables", "/-! GENERATED by /verif/tools/rust2lean.py (called from extract.py) from /repo on every run. Do not edit.",
            "Each definition is the body of the named Rust function, statement by statement; `bad` collects the overflow checks. -/",
            "namespace Adsb.Gen", "open Adsb.MiniRust", "set_option linter.unusedVariables false", ""]
     for lean_name, rust_name, body, bits in items:
         out.append(emit_fn(lean_name, rust_name, body, "" if bits is None else " after its %d-bit read (`v0`)" % bits))
         if bits is not None: out.append("/-- width of the field `%s` reads -/\ndef %sBits : Nat := %d\n" % (rust_name, lean_name, bits))
+    out.append(emit_fn2("modesChecksumSrc", "modes_checksum", crc_stmts, "message", 0))
     out.append("end Adsb.Gen\n")
     return "\n".join(out)
 
